@@ -1,9 +1,12 @@
 package symgo
 
-// Goroutines and channels. Threads are real goroutines that hand a baton to each other, so exactly one
-// runs at any time; at every visible operation (lock, unlock, channel operation, spawn, exit) the
-// scheduler picks the next thread to run by a recorded decision, which makes schedules enumerable
-// and replayable.
+// Goroutines, channels and locks under a controlled scheduler.
+//
+// Target goroutines are real goroutines that hand a baton to each other, so exactly one of them runs at any
+// time. At every visible operation (lock, unlock, channel send/receive/close, go, goroutine exit) the scheduler
+// picks the thread to run next through a recorded decision (Path.choose), which makes schedules enumerable by
+// the decision-prefix exploration and replayable. Pre-emptions (switching away from a thread that could go on)
+// are bounded by Engine.MaxSwitches; forced switches (the running thread blocks or exits) are not counted.
 
 import (
 	"fmt"
@@ -16,13 +19,10 @@ type gochan struct {
 	buf    []value
 	cap    int
 	closed bool
-	// rendezvous for unbuffered channels
-	sendq []*pendingSend
-	recvq []*thread
+	sendq  []*pendingSend // senders parked on an unbuffered channel
 }
 
 type pendingSend struct {
-	t    *thread
 	v    value
 	done bool
 }
@@ -31,32 +31,55 @@ type thread struct {
 	id      int
 	wake    chan struct{}
 	done    bool
-	blocked func() bool // non-nil: thread is blocked until blocked() returns false
-	label   string
+	blocked func() bool // non-nil while parked: still blocked?
 }
 
 type scheduler struct {
-	threads  []*thread
-	cur      *thread
-	switches int
-	maxSw    int
-	trace    []int
-	abort    interface{} // panic value to propagate from a non-main thread
+	threads     []*thread
+	cur         *thread
+	preemptions int
+	abort       interface{} // panic value raised in a non-main thread; re-raised in the main thread
+	killed      bool
+}
+
+type threadExit struct{}
+
+func deadlockPanic() targetPanic {
+	return targetPanic{"fatal error: all goroutines are asleep - deadlock!"}
 }
 
 func (i *interpreter) runMain(fn *ssa.Function) {
 	main := &thread{id: 0, wake: make(chan struct{}, 1)}
-	i.sched = &scheduler{threads: []*thread{main}, cur: main, maxSw: i.eng.MaxSwitches}
+	s := &scheduler{threads: []*thread{main}, cur: main}
+	i.sched = s
+	defer i.killThreads()
 	call(i, nil, 0, fn, nil)
-	// let remaining threads finish (the harness main returned)
-	i.sched.cur.done = true
+	// the harness returned: let the remaining goroutines run to completion (or deadlock among themselves, which
+	// is a goroutine leak, not a crash, and is left to the harness to assert on)
+	main.done = true
 	for {
-		if !i.yield(true) {
-			break
+		if s.abort != nil {
+			panic(s.abort)
 		}
+		en := s.enabled()
+		if len(en) == 0 {
+			return
+		}
+		i.transfer(i.pick(en, false))
 	}
-	if i.sched.abort != nil {
-		panic(i.sched.abort)
+}
+
+// killThreads releases every parked goroutine at the end of a path.
+func (i *interpreter) killThreads() {
+	s := i.sched
+	s.killed = true
+	for _, t := range s.threads[1:] {
+		if !t.done {
+			select {
+			case t.wake <- struct{}{}:
+			default:
+			}
+		}
 	}
 }
 
@@ -74,93 +97,114 @@ func (s *scheduler) enabled() []*thread {
 	return out
 }
 
-// yield is a scheduling point. It returns false if no thread can run (only meaningful when final).
-func (i *interpreter) yield(final bool) bool {
+// pick chooses among the enabled threads; the current thread (if enabled) is alternative 0 so that the first
+// explored schedule runs each goroutine as long as possible.
+func (i *interpreter) pick(en []*thread, countPreemption bool) *thread {
+	s := i.sched
+	if len(en) == 1 {
+		return en[0]
+	}
+	ordered := en
+	curEnabled := false
+	for k, t := range en {
+		if t == s.cur {
+			curEnabled = true
+			ordered = append([]*thread{t}, append(append([]*thread{}, en[:k]...), en[k+1:]...)...)
+		}
+	}
+	n := len(ordered)
+	if curEnabled && countPreemption && s.preemptions >= i.eng.MaxSwitches {
+		return s.cur
+	}
+	k := i.path.choose(n, nil)
+	if curEnabled && k != 0 {
+		s.preemptions++
+	}
+	return ordered[k]
+}
+
+// transfer hands the baton to next and parks the calling goroutine until it is woken again.
+func (i *interpreter) transfer(next *thread) {
+	s := i.sched
+	me := s.cur
+	if next == me {
+		return
+	}
+	s.cur = next
+	next.wake <- struct{}{}
+	<-me.wake
+	if s.killed && me.id != 0 {
+		panic(threadExit{})
+	}
+	if s.abort != nil && me.id == 0 {
+		panic(s.abort)
+	}
+}
+
+// yield is a scheduling point at a visible operation of a runnable thread.
+func (i *interpreter) yield(_ bool) bool {
 	s := i.sched
 	if s == nil || len(s.threads) == 1 {
-		if s != nil && s.cur.blocked != nil && s.cur.blocked() {
-			panic(targetPanic{"fatal error: all goroutines are asleep - deadlock!"})
-		}
 		return false
-	}
-	if s.abort != nil {
-		if s.cur.id == 0 {
-			panic(s.abort)
-		}
 	}
 	en := s.enabled()
 	if len(en) == 0 {
-		// deadlock if some thread is not done
-		for _, t := range s.threads {
-			if !t.done {
-				if s.cur.id == 0 || final {
-					panic(targetPanic{"fatal error: all goroutines are asleep - deadlock!"})
-				}
-			}
-		}
 		return false
 	}
-	var next *thread
-	if len(en) == 1 {
-		next = en[0]
-	} else {
-		// prefer to continue the current thread as alternative 0 so that the first schedule is sequential
-		ordered := en
-		for k, t := range en {
-			if t == s.cur {
-				ordered = append([]*thread{t}, append(append([]*thread{}, en[:k]...), en[k+1:]...)...)
-			}
-		}
-		n := len(ordered)
-		if s.switches >= s.maxSw && ordered[0] == s.cur {
-			n = 1 // context-switch bound reached: keep running
-		}
-		k := i.path.choose(n, nil)
-		next = ordered[k]
-	}
-	if next == s.cur {
-		return true
-	}
-	s.switches++
-	prev := s.cur
-	s.cur = next
-	next.wake <- struct{}{}
-	if prev.done {
-		if prev.id == 0 {
-			// main waits for the baton to come back (or for everything to finish)
-			<-prev.wake
-			return true
-		}
-		return true
-	}
-	<-prev.wake
-	if s.abort != nil && prev.id == 0 {
-		panic(s.abort)
-	}
+	i.transfer(i.pick(en, true))
 	return true
 }
 
-// block parks the current thread until cond() is false.
+// block parks the current thread while cond() holds.
 func (i *interpreter) block(cond func() bool) {
 	s := i.sched
-	t := s.cur
+	me := s.cur
 	for cond() {
-		t.blocked = cond
-		if len(s.threads) == 1 {
-			panic(targetPanic{"fatal error: all goroutines are asleep - deadlock!"})
-		}
+		me.blocked = cond
 		en := s.enabled()
 		if len(en) == 0 {
-			dead := targetPanic{"fatal error: all goroutines are asleep - deadlock!"}
-			if t.id == 0 {
-				panic(dead)
+			me.blocked = nil
+			if me.id == 0 {
+				panic(deadlockPanic())
 			}
-			s.abort = dead
-			i.exitThread()
+			// every goroutine is asleep: report through the main thread
+			if s.abort == nil {
+				s.abort = deadlockPanic()
+			}
+			i.finishThread(me)
 		}
-		i.yield(false)
-		t.blocked = nil
+		i.transfer(i.pick(en, false))
+		me.blocked = nil
 	}
+}
+
+// finishThread ends a non-main thread: the baton goes to another thread and the goroutine unwinds.
+func (i *interpreter) finishThread(me *thread) {
+	s := i.sched
+	me.done = true
+	main := s.threads[0]
+	var next *thread
+	if s.abort != nil {
+		next = main
+	} else if en := s.enabled(); len(en) > 0 {
+		func() {
+			defer func() {
+				if r := recover(); r != nil {
+					s.abort = r
+					next = main
+				}
+			}()
+			next = i.pick(en, false)
+		}()
+	} else {
+		next = main // nobody can run: main decides (it is finished, blocked forever, or sees the abort)
+		if !main.done && s.abort == nil {
+			s.abort = deadlockPanic()
+		}
+	}
+	s.cur = next
+	next.wake <- struct{}{}
+	panic(threadExit{})
 }
 
 func (i *interpreter) spawn(fr *frame, instr *ssa.Go, fn value, args []value) {
@@ -175,56 +219,25 @@ func (i *interpreter) spawn(fr *frame, instr *ssa.Go, fn value, args []value) {
 	s.threads = append(s.threads, t)
 	go func() {
 		<-t.wake
+		if s.killed {
+			return
+		}
 		defer func() {
-			if r := recover(); r != nil {
-				if _, ok := r.(threadExit); !ok {
-					if s.abort == nil {
-						s.abort = r
-					}
-				}
+			r := recover()
+			if _, ok := r.(threadExit); ok {
+				return // baton already handed on (finishThread) or the path is over
 			}
-			t.done = true
-			// hand the baton on
-			en := s.enabled()
-			var next *thread
-			if s.abort != nil {
-				next = s.threads[0]
-			} else if len(en) > 0 {
-				func() {
-					defer func() {
-						if r := recover(); r != nil {
-							s.abort = r
-							next = s.threads[0]
-						}
-					}()
-					k := 0
-					if len(en) > 1 {
-						k = i.path.choose(len(en), nil)
-					}
-					next = en[k]
-				}()
-			} else {
-				next = s.threads[0]
-				if !next.done || true {
-					// main may be blocked forever: report deadlock through it
-					for _, o := range s.threads {
-						if !o.done && o != t {
-							s.abort = targetPanic{"fatal error: all goroutines are asleep - deadlock!"}
-						}
-					}
-				}
+			if r != nil && s.abort == nil {
+				// an uncaught panic in a goroutine crashes the program; engine aborts travel the same way
+				s.abort = r
 			}
-			s.cur = next
-			next.wake <- struct{}{}
+			defer func() { recover() }() // finishThread unwinds with threadExit
+			i.finishThread(t)
 		}()
 		call(i, nil, instr.Pos(), fn, args)
 	}()
 	i.yield(false)
 }
-
-type threadExit struct{}
-
-func (i *interpreter) exitThread() { panic(threadExit{}) }
 
 func (i *interpreter) makeChan(n int) value {
 	return &gochan{cap: n}
@@ -233,7 +246,8 @@ func (i *interpreter) makeChan(n int) value {
 func (i *interpreter) chanSend(c value, v value) {
 	ch, ok := c.(*gochan)
 	if !ok || ch == nil {
-		i.block(func() bool { return true })
+		i.block(func() bool { return true }) // send on nil channel blocks forever
+		return
 	}
 	if ch.closed {
 		panic(targetPanic{"send on closed channel"})
@@ -247,7 +261,7 @@ func (i *interpreter) chanSend(c value, v value) {
 		i.yield(false)
 		return
 	}
-	ps := &pendingSend{t: i.sched.cur, v: v}
+	ps := &pendingSend{v: v}
 	ch.sendq = append(ch.sendq, ps)
 	i.block(func() bool { return !ps.done && !ch.closed })
 	if !ps.done && ch.closed {
@@ -259,6 +273,7 @@ func (i *interpreter) chanRecv(c value, elem types.Type, commaOk bool) value {
 	ch, ok := c.(*gochan)
 	if !ok || ch == nil {
 		i.block(func() bool { return true })
+		return nil
 	}
 	i.block(func() bool { return len(ch.buf) == 0 && len(ch.sendq) == 0 && !ch.closed })
 	var v value
@@ -296,7 +311,6 @@ func (i *interpreter) chanClose(c value) {
 }
 
 func (i *interpreter) doSelect(fr *frame, instr *ssa.Select) value {
-	type ready struct{ idx int }
 	readyCases := func() []int {
 		var out []int
 		for k, st := range instr.States {
@@ -308,10 +322,8 @@ func (i *interpreter) doSelect(fr *frame, instr *ssa.Select) value {
 				if len(ch.buf) > 0 || len(ch.sendq) > 0 || ch.closed {
 					out = append(out, k)
 				}
-			} else {
-				if ch.closed || (ch.cap > 0 && len(ch.buf) < ch.cap) {
-					out = append(out, k)
-				}
+			} else if ch.closed || (ch.cap > 0 && len(ch.buf) < ch.cap) {
+				out = append(out, k)
 			}
 		}
 		return out
